@@ -169,7 +169,7 @@ func CoqCase(in *CaseIn, obs *Observed) string {
 	var sched, reqs []string
 	held := false
 	for _, st := range in.Steps {
-		held = held || st.Hold || st.Op == "release"
+		held = held || st.Hold || st.Op == "release" || st.HoldCfg || st.Op == "cfgrelease"
 	}
 	for _, st := range in.Steps {
 		switch st.Op {
